@@ -36,6 +36,9 @@ type RunCtx struct {
 	Decoded   any
 	Blob      []byte
 	Log       []string // event log used for the determinism self-test
+	// Fatal is set when the run left the process in a state that must not be
+	// reused (a simulated thread is blocked for real): the worker stops after it.
+	Fatal bool
 	// SubEvals counts the cases evaluated inside this run when a run enumerates
 	// many (storage engines); 0 means the run is one case.
 	SubEvals int
